@@ -1,6 +1,9 @@
 /-
 C02 — property theorems (only). Model: `Model/C01.lean` (`X.fwd`, `X.jac`, `X.jacobian`) + `Model/C02.lean`
-(`X.jdom`, Softmax partial-derivative matrix); helper lemmas: `Lemmas/C01Real.lean`, `Lemmas/C02*.lean`.
+(`X.jdom`, Softmax partial-derivative matrix) + `Model/C02Hist.lean` (the transform object as a state machine: Vector
+slots and clipping, constructors and their guards, public operations, get_transform, dutils.cast); helper lemmas:
+`Lemmas/C01Real.lean`, `Lemmas/C02*.lean` (`C02Hist`: invariants of the object model; `C02Round`: the rounded instance
+`Rd M` of the model text and its order lemmas).
 
 For every transform class, over ℝ, for every parameter vector inside the declared bounds and every branch:
 * `X.hasDerivAt`    `HasDerivAt (fun t => X.fwd p t) (X.jac p x) x` at every point of the (open) domain of the
@@ -9,6 +12,12 @@ For every transform class, over ℝ, for every parameter vector inside the decla
 * `X.jacobian_spec` on the set where `_jacobian` returns a number (its `np.where` guard) that number is
                     `X.jac p x`, it is positive and it is the derivative of the forward formula;
 * `X.strictMonoOn`  the forward formula is strictly increasing on the domain.
+From any object a program can build (`mk` / `viaGet`) and after any list of public operations (`run`):
+* `history_inv`, `step_rejected_unchanged`, `call_after_history`, `X.after_history`  the admissibility hypotheses above are
+                    consequences of the constructors' and setters' guards; rejected operations change nothing.
+In the arithmetic the code performs (every operation rounded — `Rd M`, assumptions in `FP`):
+* `X.fwd_mono_fp`   `x1 ≤ x2 → X.fwd p x1 ≤ X.fwd p x2` exactly (no rounding allowance);
+* `X.jac(obian)_nonneg_fp`  the number `jacobian` returns is never negative.
 
 Clause → theorems → what remains outside (same table as harness/registry.d/C02.json "clauses"):
 
@@ -35,10 +44,16 @@ Clause → theorems → what remains outside (same table as harness/registry.d/C
     theorems: Identity.jac_pos, Logit.jac_pos, Log.jac_pos, Log.bf_pos, Log.jac_neg_of_base_lt_one, BoxCox2.jac_pos,
               BoxCox2sym.jac_pos, YeoJohnson.jac_pos, LogSinh.jac_pos, Reciprocal.jac_pos, Sinh.jac_pos,
               Manly.jac_pos, Softmax.jacRow_pos, Softmax.partial_pos, X.jacobian_spec, Sinh.jacH_eq_jac,
-              Sinh.jacobianH_spec
+              Sinh.jacobianH_spec, Identity.jac_nonneg_fp, Logit.jacobian_nonneg_fp, Log.jacobian_nonneg_fp,
+              BoxCox2.jacobian_nonneg_fp, BoxCox2sym.jacobian_nonneg_fp, YeoJohnson.jac_nonneg_fp,
+              LogSinh.jac_nonneg_fp, Reciprocal.jac_nonneg_fp, Sinh.jacH_nonneg_fp, Manly.jac_nonneg_fp,
+              Softmax.sumFrom_nonneg_fp, Softmax.prodFrom_nonneg_fp, Softmax.jacobian_nonneg_fp,
+              Log.base_one_not_pos
     outside:  Log needs log(base) > 0: for 0 < base < 1 the Jacobian is proved negative (known finding
               Log/positive/base_below_one). Sinh's u*u overflow in doubles (Jacobian 0 for |u| > 1.34e154) is
-              repaired on fix-C02 (hypot): Sinh.jacH_eq_jac, Sinh.jacobianH_spec
+              repaired on fix-C02: Sinh.jacH_eq_jac, Sinh.jacobianH_spec. In floating point: X.jac(obian)_nonneg_fp
+              prove 'never negative' exactly in the rounded arithmetic (assumptions of FP); STRICT positivity in
+              doubles (no underflow to 0) stays with the oracle
 
 * NaN outside the domain via np.where (anchor): the domain of jacobian is its guard
     theorems: Logit.jacobian_none, Log.jacobian_none, BoxCox2.jacobian_none, BoxCox1lam.jacobian_none,
@@ -53,10 +68,16 @@ Clause → theorems → what remains outside (same table as harness/registry.d/C
               BoxCox2sym.strictMono_nu_zero, YeoJohnson.strictMonoOn_pos, YeoJohnson.strictMonoOn_neg,
               YeoJohnson.forward_lt_add, YeoJohnson.fwd_lam_one, YeoJohnson.strictMono_lam_one,
               YeoJohnson.not_strictMono_lam_three, LogSinh.strictMonoOn, Reciprocal.strictMonoOn, Sinh.strictMono,
-              Manly.strictMono
+              Manly.strictMono, Identity.fwd_mono_fp, Logit.fwd_mono_fp, Log.fwd_mono_fp, BoxCox2.fwd_mono_fp,
+              BoxCox1lam.fwd_mono_fp, BoxCox1nu.fwd_mono_fp, BoxCox2sym.fwd_mono_fp, YeoJohnson.fwdW_mono_fp,
+              YeoJohnson.fwd_mono_fp, LogSinh.fwd_mono_fp, Reciprocal.fwd_mono_fp, Sinh.fwd_mono_fp,
+              Manly.fwd_mono_fp
     outside:  strict over the reals on each domain, across the junction for BoxCox2sym; for Yeo-Johnson across w =
               EPS only up to 3 EPS^2 (proved necessary: not_strictMono_lam_three) - that allowance and float
-              equality 'within rounding' are judged by the ordered-pair oracle with the evaluation-error slack
+              equality 'within rounding' are judged by the ordered-pair oracle with the evaluation-error slack. 'x1
+              < x2 implies forward(x1) <= forward(x2)' is now also a theorem about the ROUNDED evaluation
+              (X.fwd_mono_fp, no allowance), under the monotone-library assumption; what stays with the oracle is
+              that assumption itself (numpy / libm) and Yeo-Johnson pairs across w = EPS
 
 * all parameter vectors as in C01 - including objects reused across parameter re-assignments (any history), unset
   constants
@@ -64,20 +85,27 @@ Clause → theorems → what remains outside (same table as harness/registry.d/C
               BoxCox1lam.state_jacobianArr_eq, BoxCox1nu.state_jacobianArr_eq, BoxCox2sym.state_jacobianArr_eq,
               BoxCox1lam.jacobianArr_after_forwardArr, LogSinh.state_jacobianArr_eq, Manly.state_jacobianArr_eq,
               BoxCox1lam.state_jacobian_unset, BoxCox1nu.state_jacobian_unset, LogSinh.state_jacobian_unset,
-              LogSinh.state_jacobian_set, Manly.state_jacobian_unset, Manly.state_jacobian_set, Manly.jac_lam_zero
-    outside:  the theorems quantify over an arbitrary object state (= any history); Vector clipping of assigned
-              values is C12's (values are read back from the object); copy.deepcopy / pickle of a Transform raise
-              inside Vector on the pinned tree (outside C02; the history stream clones by rebuilding from
-              constructor options + values)
+              LogSinh.state_jacobian_set, Manly.state_jacobian_unset, Manly.state_jacobian_set, Manly.jac_lam_zero,
+              history_inv, step_rejected_unchanged, mk_rejects, call_after_history, Sinh.after_history,
+              YeoJohnson.after_history, Manly.after_history, LogSinh.after_history, BoxCox2sym.after_history,
+              BoxCox1lam.after_history, viaGet_inv, Log.guard_wider_than_domain
+    outside:  the theorems quantify over arbitrary operation lists on the modelled object (constructor guards,
+              clipping, NaN / length / key tests, reset, re-synchronisation, get_transform routing): the clipping is
+              no longer read back from the object but computed by the model and compared bit for bit after every
+              operation (store stream). Outside: Vector's hit-bound flags, aliasing of the arrays returned by the
+              getters, clone / to_dict (C12); copy.deepcopy / pickle of a Transform; in-place edits of
+              t.params.values
 
 * rejected input (Softmax: negative entry, row sum > 1 - EPS, more than two dimensions)
-    theorems: Softmax.jacobian_rejects, Softmax.jacobianND_spec
-    outside:  dutils.cast (result cast back to the type of the input: 2-D shape kept, python float -> float, int /
-              float32 arrays rejected with TypeError) is observed by the glue stream against the model's values, not
-              modelled in Lean
+    theorems: Softmax.jacobian_rejects, Softmax.jacobianND_spec, publicOnArray_spec, cast_kinds
+    outside:  dutils.cast is modelled for float64 / float32 / int64 arrays of any shape and python floats
+              (Model/C02Hist.cast, compared with the real function); integer scalars (converted by truncation or
+              rejected, depending on numpy's scalar-vs-0-d result type) are outside the quantifier and only recorded
 -/
 import HydroVerif.Lemmas.C02
 import HydroVerif.Lemmas.C02Softmax
+import HydroVerif.Lemmas.C02Hist
+import HydroVerif.Lemmas.C02Round
 
 namespace HydroVerif.C02
 open HydroVerif.C01 Set Filter Topology
@@ -955,6 +983,553 @@ theorem Softmax.jacobianND_spec (ndim : ℕ) (rows : List (List ℝ)) :
   · intro h; simp only [Softmax.jacobianND, if_pos h]
   · intro h; simp only [Softmax.jacobianND, if_neg (not_lt.mpr h)]
 
+
+/-! ### the transform OBJECT after any history of public operations (Model/C02Hist.lean): the hypotheses
+`X.admissible p` of the theorems above are consequences of the code's own guards -/
+
+/-- every constructor establishes "each stored value inside its slot", every public operation keeps it: the invariant
+holds after ANY list of operations, rejected ones included; class and constructor options never change -/
+theorem history_inv (cls : Cls) (c : Ctor ℝ) (o0 : Obj ℝ) (h0 : mk cls c = .ok o0) (ops : List (Op ℝ)) :
+    (run o0 ops).Inv ∧ (run o0 ops).cls = cls ∧ (run o0 ops).ctor = c := by
+  have hi := mk_inv cls c o0 h0
+  obtain ⟨h1, h2, h3⟩ := run_inv' o0 hi ops
+  have hb : o0 = build cls c := by
+    unfold mk at h0
+    cases hg : ctorGuard cls c with
+    | error e => rw [hg] at h0; cases h0
+    | ok u => rw [hg] at h0; cases h0; rfl
+  subst hb
+  exact ⟨h1, h2, h3⟩
+
+/-- fault paths: an operation the code rejects (`ValueError`: NaN into a parameter, a vector of the wrong length, an
+unknown key, a call with an unset constant) leaves the object exactly as it was -/
+theorem step_rejected_unchanged (o : Obj ℝ) (op : Op ℝ) (e : SErr) (h : (step o op).2 = .rejected e) :
+    (step o op).1 = o := by
+  cases op <;> simp only [step] at h ⊢
+  case setAttr nm v => cases hs : setAttr o nm v <;> simp_all
+  case setItem nm v => cases hs : setItem o nm v <;> simp_all
+  case setValues vs => cases hs : o.params.setAll vs <;> simp_all
+  case reset => cases hs : o.params.reset <;> simp_all
+  case call jac xs => cases hs : callOp o jac xs <;> simp_all
+
+/-- the guards of the constructors: what they reject, and what they guarantee when they return -/
+theorem mk_rejects (cls : Cls) (c : Ctor ℝ) (hcls : cls = .BoxCox2 ∨ cls = .BoxCox1lam ∨ cls = .BoxCox1nu ∨ cls = .BoxCox2sym) :
+    (c.minilam < -3 → mk cls c = .error .minilamBelowM3) ∧
+    (1 + eps < c.minilam → ∃ e, mk cls c = .error e) := by
+  constructor
+  · intro h
+    have : bcGuard c = .error .minilamBelowM3 := by
+      unfold bcGuard; rw [if_pos (by norm_num; exact h)]
+    rcases hcls with rfl | rfl | rfl | rfl <;> simp [mk, ctorGuard, this]
+  · intro h
+    have : ∃ e, bcGuard c = .error e := by
+      unfold bcGuard
+      split_ifs with h1 h2 h3
+      · exact ⟨_, rfl⟩
+      · exact ⟨_, rfl⟩
+      · exact ⟨_, rfl⟩
+      · exact absurd (by linarith : 1 < c.minilam - eps) h3
+    obtain ⟨e, he⟩ := this
+    rcases hcls with rfl | rfl | rfl | rfl <;> exact ⟨e, by simp [mk, ctorGuard, he]⟩
+
+/-- a call on a reachable object never meets a state the model does not cover, fails only for an unset constant,
+returns one value per element, and never changes a parameter or a constant -/
+theorem call_after_history (cls : Cls) (c : Ctor ℝ) (o0 : Obj ℝ) (h0 : mk cls c = .ok o0) (ops : List (Op ℝ))
+    (jac : Bool) (xs : List ℝ) :
+    (∃ e, callOp (run o0 ops) jac xs = .error (.call e)) ∨
+    (∃ o' ys, callOp (run o0 ops) jac xs = .ok (o', ys) ∧ ys.length = xs.length ∧
+      o'.params = (run o0 ops).params ∧ o'.consts = (run o0 ops).consts ∧ o'.Inv) := by
+  obtain ⟨hi, hc, _⟩ := history_inv cls c o0 h0 ops
+  generalize run o0 ops = o at hi hc
+  have fin : ∀ o' ys, callOp o jac xs = .ok (o', ys) → ys.length = xs.length →
+      (∃ e, callOp o jac xs = .error (.call e)) ∨ (∃ o' ys, callOp o jac xs = .ok (o', ys) ∧ ys.length = xs.length ∧
+        o'.params = o.params ∧ o'.consts = o.consts ∧ o'.Inv) := by
+    intro o' ys h hl
+    refine Or.inr ⟨o', ys, h, hl, ?_, ?_, (callOp_inv o hi jac xs o' ys h).1⟩
+    · rcases callOp_state o jac xs o' ys h with rfl | ⟨nu, lam, hs⟩
+      · rfl
+      · exact (syncInner_inv o hi nu lam o' hs).2.2.2.1
+    · rcases callOp_state o jac xs o' ys h with rfl | ⟨nu, lam, hs⟩
+      · rfl
+      · exact (syncInner_inv o hi nu lam o' hs).2.2.2.2
+  cases cls
+  case Identity => exact fin _ _ (Identity.of_inv o hi hc jac xs) (by simp [applyArr])
+  case Logit => obtain ⟨p, _, _, h⟩ := Logit.of_inv o hi hc jac xs; exact fin _ _ h (by simp [applyArr])
+  case Log => obtain ⟨nu, _, _, _, h⟩ := Log.of_inv o hi hc jac xs; exact fin _ _ h (by simp [applyArr])
+  case BoxCox2 => obtain ⟨nu, lam, _, _, _, _, h⟩ := BoxCox2.of_inv o hi hc jac xs; exact fin _ _ h (by simp [applyArr])
+  case BoxCox1lam =>
+    obtain ⟨lam, nu, _, _, _, _, _, h⟩ := BoxCox1lam.of_inv o hi hc jac xs
+    cases nu with
+    | none => exact Or.inl ⟨_, h⟩
+    | some nu => exact fin _ _ h (by simp [applyArr])
+  case BoxCox1nu =>
+    obtain ⟨nu, lam, _, _, _, _, h⟩ := BoxCox1nu.of_inv o hi hc jac xs
+    cases lam with
+    | none => exact Or.inl ⟨_, h⟩
+    | some lam => exact fin _ _ h (by simp [applyArr])
+  case BoxCox2sym => obtain ⟨nu, lam, _, _, _, _, h⟩ := BoxCox2sym.of_inv o hi hc jac xs; exact fin _ _ h (by simp [applyArr])
+  case YeoJohnson => obtain ⟨p, _, _, h⟩ := YeoJohnson.of_inv o hi hc jac xs; exact fin _ _ h (by simp [applyArr])
+  case LogSinh =>
+    obtain ⟨la, lb, xm, _, _, _, h⟩ := LogSinh.of_inv o hi hc jac xs
+    cases xm with
+    | none => exact Or.inl ⟨_, h⟩
+    | some xm => exact fin _ _ h (by simp [applyArr])
+  case Reciprocal => obtain ⟨nu, _, _, h⟩ := Reciprocal.of_inv o hi hc jac xs; exact fin _ _ h (by simp [applyArr])
+  case Sinh => obtain ⟨p, _, _, h⟩ := Sinh.of_inv o hi hc jac xs; exact fin _ _ h (by simp [applyArr])
+  case Manly =>
+    obtain ⟨lam, xm, _, _, _, h⟩ := Manly.of_inv o hi hc jac xs
+    cases xm with
+    | none => exact Or.inl ⟨_, h⟩
+    | some xm => exact fin _ _ h (by simp [applyArr])
+
+/-- Sinh, any history: the object's `scale` is ≥ 1e-10 whatever was assigned, and `jacobian` returns at every point the
+positive derivative of `forward` — `Sinh.admissible` is no longer a hypothesis -/
+theorem Sinh.after_history (c : Ctor ℝ) (o0 : Obj ℝ) (h0 : mk .Sinh c = .ok o0) (ops : List (Op ℝ)) (x : ℝ) :
+    ∃ (p : Sinh.Params ℝ) (j : ℝ), Sinh.admissible p ∧
+      callOp (run o0 ops) true [x] = .ok (run o0 ops, [some j]) ∧ 0 < j ∧ HasDerivAt (fun t => Sinh.fwd p t) j x := by
+  obtain ⟨hi, hc, _⟩ := history_inv .Sinh c o0 h0 ops
+  obtain ⟨p, hp, _, h⟩ := Sinh.of_inv _ hi hc true [x]
+  obtain ⟨j, hj, hpos, hd⟩ := Sinh.jacobianH_spec p x hp
+  exact ⟨p, j, hp, by rw [h]; simp [applyArr, hj], hpos, hd⟩
+
+theorem YeoJohnson.after_history (c : Ctor ℝ) (o0 : Obj ℝ) (h0 : mk .YeoJohnson c = .ok o0) (ops : List (Op ℝ)) (x : ℝ) :
+    ∃ (p : YeoJohnson.Params ℝ) (j : ℝ), YeoJohnson.admissible p ∧
+      callOp (run o0 ops) true [x] = .ok (run o0 ops, [some j]) ∧ 0 < j ∧
+      (p.nu + x * p.scale ≠ eps → HasDerivAt (fun t => YeoJohnson.fwd p t) j x) := by
+  obtain ⟨hi, hc, _⟩ := history_inv .YeoJohnson c o0 h0 ops
+  obtain ⟨p, hp, _, h⟩ := YeoJohnson.of_inv _ hi hc true [x]
+  exact ⟨p, YeoJohnson.jac p x, hp, by rw [h]; simp [applyArr, YeoJohnson.jacobian], YeoJohnson.jac_pos p x hp,
+    fun hw => YeoJohnson.hasDerivAt p x hw⟩
+
+/-- Manly, any history: either `xmax` was never set and the call is rejected, or `xmax ≥ EPS`, `lam ∈ [-5, 5]` and the
+answer is the positive derivative -/
+theorem Manly.after_history (c : Ctor ℝ) (o0 : Obj ℝ) (h0 : mk .Manly c = .ok o0) (ops : List (Op ℝ)) (x : ℝ) :
+    callOp (run o0 ops) true [x] = .error (.call .xmaxUnset) ∨
+    ∃ (p : Manly.Params ℝ) (j : ℝ), Manly.admissible p ∧
+      callOp (run o0 ops) true [x] = .ok (run o0 ops, [some j]) ∧ 0 < j ∧ HasDerivAt (fun t => Manly.fwd p t) j x := by
+  obtain ⟨hi, hc, _⟩ := history_inv .Manly c o0 h0 ops
+  obtain ⟨lam, xm, hp, _, _, h⟩ := Manly.of_inv _ hi hc true [x]
+  cases xm with
+  | none => exact Or.inl h
+  | some xm =>
+    right
+    have hp' := hp xm rfl
+    obtain ⟨j, hj, hpos, hd⟩ := Manly.jacobian_spec ⟨lam, xm⟩ x hp'
+    exact ⟨⟨lam, xm⟩, j, hp', by rw [h]; simp [applyArr, hj], hpos, hd⟩
+
+theorem LogSinh.after_history (c : Ctor ℝ) (o0 : Obj ℝ) (h0 : mk .LogSinh c = .ok o0) (ops : List (Op ℝ)) (x : ℝ) :
+    callOp (run o0 ops) true [x] = .error (.call .xmaxUnset) ∨
+    ∃ p : LogSinh.Params ℝ, LogSinh.admissible p ∧
+      callOp (run o0 ops) true [x] = .ok (run o0 ops, [LogSinh.jacobian p x]) ∧
+      (LogSinh.dom p x → ∃ j, LogSinh.jacobian p x = some j ∧ 0 < j ∧ HasDerivAt (fun t => LogSinh.fwd p t) j x) ∧
+      (¬ LogSinh.dom p x → LogSinh.jacobian p x = none) := by
+  obtain ⟨hi, hc, _⟩ := history_inv .LogSinh c o0 h0 ops
+  obtain ⟨la, lb, xm, hp, _, _, h⟩ := LogSinh.of_inv _ hi hc true [x]
+  cases xm with
+  | none => exact Or.inl h
+  | some xm =>
+    right
+    have hp' := hp xm rfl
+    exact ⟨⟨la, lb, xm⟩, hp', by rw [h]; simp [applyArr], fun hx => LogSinh.jacobian_spec _ x hp' hx,
+      fun hx => LogSinh.jacobian_none _ x hx⟩
+
+/-- BoxCox2sym built with a positive `mininu` (the default is EPS), any history: `nu ≥ mininu > 0`, so `BC(0)` exists,
+the inner object holds exactly the outer values after the call, and on the guard the answer is the positive
+derivative — `0 < nu` is no longer a hypothesis -/
+theorem BoxCox2sym.after_history (c : Ctor ℝ) (hm : 0 < c.mininu) (o0 : Obj ℝ) (h0 : mk .BoxCox2sym c = .ok o0)
+    (ops : List (Op ℝ)) (x : ℝ) :
+    ∃ p : BoxCox2sym.Params ℝ, 0 < p.nu ∧ p.mininu = c.mininu ∧
+      callOp (run o0 ops) true [x] = .ok ({ run o0 ops with bc := some ⟨bcSlots c, false, [some p.nu, some p.lam]⟩ },
+        [BoxCox2sym.jacobian p x]) ∧
+      (p.mininu < |x| + p.nu →
+        ∃ j, BoxCox2sym.jacobian p x = some j ∧ 0 < j ∧ HasDerivAt (fun t => BoxCox2sym.fwd p t) j x) := by
+  obtain ⟨hi, hc, hct⟩ := history_inv .BoxCox2sym c o0 h0 ops
+  obtain ⟨nu, lam, h1, _, _, _, h⟩ := BoxCox2sym.of_inv _ hi hc true [x]
+  rw [hct] at h h1
+  have hnu : 0 < nu := lt_of_lt_of_le hm h1
+  exact ⟨⟨nu, lam, c.mininu⟩, hnu, rfl, by rw [h]; simp [applyArr, hct], fun hj => BoxCox2sym.jacobian_spec _ x hnu hj⟩
+
+/-- BoxCox1lam, any history: an unset `nu` rejects the call and leaves the stale inner object alone; otherwise the
+inner object is overwritten with exactly the outer `(nu, lam)` — whatever it held — and the answer is BoxCox2's -/
+theorem BoxCox1lam.after_history (c : Ctor ℝ) (o0 : Obj ℝ) (h0 : mk .BoxCox1lam c = .ok o0) (ops : List (Op ℝ))
+    (x : ℝ) :
+    callOp (run o0 ops) true [x] = .error (.call .nuUnset) ∨
+    ∃ nu lam : ℝ, c.mininu ≤ nu ∧ c.minilam ≤ lam ∧ lam ≤ 3 ∧
+      callOp (run o0 ops) true [x] = .ok ({ run o0 ops with bc := some ⟨bcSlots c, false, [some nu, some lam]⟩ },
+        [BoxCox2.jacobian ⟨nu, lam, c.mininu⟩ x]) ∧
+      (0 < x + nu → c.mininu < x + nu → ∃ j, BoxCox2.jacobian ⟨nu, lam, c.mininu⟩ x = some j ∧ 0 < j ∧
+        HasDerivAt (fun t => BoxCox2.fwd ⟨nu, lam, c.mininu⟩ t) j x) := by
+  obtain ⟨hi, hc, hct⟩ := history_inv .BoxCox1lam c o0 h0 ops
+  obtain ⟨lam, nu, h2, h3, h1, _, _, h⟩ := BoxCox1lam.of_inv _ hi hc true [x]
+  rw [hct] at h h1 h2
+  cases nu with
+  | none => exact Or.inl h
+  | some nu =>
+    right
+    exact ⟨nu, lam, h1 nu rfl, h2, h3, by rw [h]; simp [applyArr, hct],
+      fun hx hj => BoxCox2.jacobian_spec ⟨nu, lam, c.mininu⟩ x hx hj⟩
+
+/-- `get_transform(name, **kwargs)` is the constructor followed by one assignment per keyword that names a parameter or
+a constant: the object it returns satisfies the same invariant, hence everything above -/
+theorem viaGet_inv (cls : Cls) (c : Ctor ℝ) (kw : List (String × Option ℝ)) (o : Obj ℝ)
+    (h : viaGet cls c kw = .ok o) : o.Inv ∧ o.cls = cls ∧ o.ctor = c := by
+  unfold viaGet at h
+  cases hm : mk cls c with
+  | error e => rw [hm] at h; cases h
+  | ok o0 =>
+    rw [hm] at h
+    simp only [Bind.bind, Except.bind] at h
+    have hi0 := history_inv cls c o0 hm []
+    simp only [run] at hi0
+    generalize kwOps cls kw = ops at h
+    clear hm
+    induction ops generalizing o0 with
+    | nil => simp only [List.foldlM, pure, Except.pure, Except.ok.injEq] at h; subst h; exact hi0
+    | cons op rest ih =>
+      simp only [List.foldlM, Bind.bind, Except.bind] at h
+      have hs := step_inv' o0 hi0.1 op
+      cases hst : step o0 op with
+      | mk o1 out =>
+        rw [hst] at h hs
+        cases out with
+        | rejected e => simp at h
+        | done => exact ih o1 ⟨hs.1, hs.2.1.trans hi0.2.1, hs.2.2.trans hi0.2.2⟩ (by simpa using h)
+        | values ys => exact ih o1 ⟨hs.1, hs.2.1.trans hi0.2.1, hs.2.2.trans hi0.2.2⟩ (by simpa using h)
+
+/-! ### `dutils.cast`: on the property's inputs (float64 arrays of any shape) the public method returns exactly the
+elementwise values of `_jacobian`, with the shape of the argument -/
+
+theorem publicOnArray_spec (f : ℝ → Option ℝ) (shape : List ℕ) (xs : List ℝ) :
+    publicOnArray f shape xs = .ok (.arr .f64 shape (xs.map f)) := rfl
+
+/-- a python float goes through `float(y)` (a numpy scalar / 0-d result); an integer or float32 ARRAY with a float64
+result is a `TypeError`, never silently converted -/
+theorem cast_kinds (shape : List ℕ) (xs ys : List ℝ) (v y : ℝ) :
+    cast (.pyFloat v) .f64 [] [y] = .ok (.pyFloat y) ∧
+    cast (.arr .i64 shape xs) .f64 shape ys = .error .typeError ∧
+    cast (.arr .f32 shape xs) .f64 shape ys = .error .typeError := ⟨rfl, rfl, rfl⟩
+
+/-! ### rounded arithmetic (Lemmas/C02Round.lean) -/
+section Rounded
+variable {M : FP}
+
+/-! ### in the arithmetic the code performs (every operation rounded, library functions monotone): `forward` is
+(weakly) increasing — the property's `x1 < x2 ⇒ forward(x1) ≤ forward(x2)` with NO rounding allowance -/
+
+theorem Identity.fwd_mono_fp (p : Identity.Params (Rd M)) {x1 x2 : Rd M} (h : x1 ≤ x2) :
+    Identity.fwd p x1 ≤ Identity.fwd p x2 := h
+
+theorem Logit.fwd_mono_fp (p : Logit.Params (Rd M)) {x1 x2 : Rd M} (h : x1 ≤ x2)
+    (hW : 0 < Logit.upper p - p.lower)
+    (h2 : 0 < 1 - (x2 - p.lower) / (Logit.upper p - p.lower))
+    (h1 : 0 < 1 / (1 - (x1 - p.lower) / (Logit.upper p - p.lower)) - 1) :
+    Logit.fwd p x1 ≤ Logit.fwd p x2 := by
+  unfold Logit.fwd
+  have hv : (x1 - p.lower) / (Logit.upper p - p.lower) ≤ (x2 - p.lower) / (Logit.upper p - p.lower) :=
+    Rd.div_le_div_right' (Rd.sub_le_sub' h le_rfl) hW.le
+  have h3 : 1 - (x2 - p.lower) / (Logit.upper p - p.lower) ≤ 1 - (x1 - p.lower) / (Logit.upper p - p.lower) :=
+    Rd.sub_le_sub' le_rfl hv
+  exact Rd.log_le_log' h1 (Rd.sub_le_sub' (Rd.div_le_div_left_nonneg Rd.one_pos'.le h2 h3) le_rfl)
+
+theorem Log.fwd_mono_fp (p : Log.Params (Rd M)) {x1 x2 : Rd M} (h : x1 ≤ x2) (hd : 0 < x1 + p.nu)
+    (hb : 0 < Log.bf p) : Log.fwd p x1 ≤ Log.fwd p x2 :=
+  Rd.div_le_div_right' (Rd.log_le_log' hd (Rd.add_le_add' h le_rfl)) hb.le
+
+theorem BoxCox2.fwd_mono_fp (p : BoxCox2.Params (Rd M)) {x1 x2 : Rd M} (h : x1 ≤ x2) (hd : 0 < x1 + p.nu) :
+    BoxCox2.fwd p x1 ≤ BoxCox2.fwd p x2 := by
+  have hs : x1 + p.nu ≤ x2 + p.nu := Rd.add_le_add' h le_rfl
+  unfold BoxCox2.fwd
+  split_ifs with hl
+  · rcases Rd.lamBig_ne hl with hneg | hpos
+    · have hk : p.lam ≤ 0 := by rw [Rd.le_def, Rd.zero_val]; exact hneg.le
+      exact Rd.div_le_div_right_of_nonpos (Rd.sub_le_sub' (Rd.pow_le_pow_base_of_nonpos hk hd hs) le_rfl) hk
+    · have hk : 0 ≤ p.lam := by rw [Rd.le_def, Rd.zero_val]; exact hpos.le
+      exact Rd.div_le_div_right' (Rd.sub_le_sub' (Rd.pow_le_pow_base hk hd hs) le_rfl) hk
+  · exact Rd.log_le_log' hd hs
+
+theorem BoxCox1lam.fwd_mono_fp (p : BoxCox1lam.Params (Rd M)) {x1 x2 : Rd M} (h : x1 ≤ x2) (hd : 0 < x1 + p.nu) :
+    BoxCox1lam.fwd p x1 ≤ BoxCox1lam.fwd p x2 := BoxCox2.fwd_mono_fp (BoxCox1lam.toBC p) h hd
+
+theorem BoxCox1nu.fwd_mono_fp (p : BoxCox1nu.Params (Rd M)) {x1 x2 : Rd M} (h : x1 ≤ x2) (hd : 0 < x1 + p.nu) :
+    BoxCox1nu.fwd p x1 ≤ BoxCox1nu.fwd p x2 := BoxCox2.fwd_mono_fp (BoxCox1nu.toBC p) h hd
+
+/-- across the junction too: for ALL ordered pairs of the real line (the exact-arithmetic theorem is
+`BoxCox2sym.strictMono`); the only hypothesis is that `BC(0)` exists as computed, `0 + nu > 0` -/
+theorem BoxCox2sym.fwd_mono_fp (p : BoxCox2sym.Params (Rd M)) {x1 x2 : Rd M} (h : x1 ≤ x2) (hnu : 0 < 0 + p.nu) :
+    BoxCox2sym.fwd p x1 ≤ BoxCox2sym.fwd p x2 := by
+  -- `g` = the inner Box-Cox on non-negative arguments, increasing there
+  have hg : ∀ a b : Rd M, 0 ≤ a → a ≤ b → BoxCox2.fwd (BoxCox2sym.toBC p) a ≤ BoxCox2.fwd (BoxCox2sym.toBC p) b := by
+    intro a b ha hab
+    refine BoxCox2.fwd_mono_fp (BoxCox2sym.toBC p) hab ?_
+    exact lt_of_lt_of_le hnu (Rd.add_le_add' ha le_rfl)
+  have hG : ∀ a : Rd M, 0 ≤ a → 0 ≤ BoxCox2.fwd (BoxCox2sym.toBC p) a - BoxCox2sym.y0 p := by
+    intro a ha
+    exact Rd.sub_nonneg' (hg 0 a le_rfl ha)
+  have habs : ∀ a : Rd M, (0 : Rd M) ≤ absv a := Rd.absv_nonneg
+  unfold BoxCox2sym.fwd sign
+  by_cases h1p : 0 < x1
+  · have h2p : 0 < x2 := lt_of_lt_of_le h1p h
+    have e1 : absv x1 = x1 := by unfold absv; rw [if_neg (not_lt.mpr h1p.le)]
+    have e2 : absv x2 = x2 := by unfold absv; rw [if_neg (not_lt.mpr h2p.le)]
+    rw [if_pos h1p, if_pos h2p, e1, e2]
+    exact Rd.mul_le_mul_left' (Rd.sub_le_sub' (hg x1 x2 h1p.le h) le_rfl) Rd.one_pos'.le
+  · rw [if_neg h1p]
+    -- the image of x1 is ≤ 0
+    have hleft : (if x1 < 0 then (-1 : Rd M) else 0) * (BoxCox2.fwd (BoxCox2sym.toBC p) (absv x1) - BoxCox2sym.y0 p) ≤ 0 := by
+      have hGn := hG (absv x1) (habs x1)
+      rw [Rd.le_def, Rd.zero_val] at hGn
+      split_ifs
+      · rw [Rd.le_def, Rd.mul_val, Rd.zero_val, Rd.neg_val, Rd.one_val]
+        exact Rd.rnd_nonpos (by nlinarith)
+      · rw [Rd.le_def, Rd.mul_val, Rd.zero_val]
+        simp [M.rnd_zero]
+    by_cases h2p : 0 < x2
+    · rw [if_pos h2p]
+      refine le_trans hleft ?_
+      exact Rd.mul_nonneg' Rd.one_pos'.le (hG (absv x2) (habs x2))
+    · rw [if_neg h2p]
+      by_cases h2n : x2 < 0
+      · have h1n : x1 < 0 := lt_of_le_of_lt h h2n
+        have e1 : absv x1 = -x1 := by unfold absv; rw [if_pos h1n]
+        have e2 : absv x2 = -x2 := by unfold absv; rw [if_pos h2n]
+        rw [if_pos h1n, if_pos h2n, e1, e2]
+        have hx : -x2 ≤ -x1 := Rd.neg_le_neg' h
+        have h0 : (0 : Rd M) ≤ -x2 := by
+          rw [Rd.le_def, Rd.zero_val, Rd.neg_val]
+          rw [Rd.lt_def, Rd.zero_val] at h2n
+          linarith
+        exact Rd.mul_le_mul_left_of_nonpos (Rd.sub_le_sub' (hg (-x2) (-x1) h0 hx) le_rfl) Rd.neg_one_nonpos
+      · rw [if_neg h2n]
+        refine le_trans hleft ?_
+        rw [Rd.le_def, Rd.mul_val, Rd.zero_val]
+        simp [M.rnd_zero]
+
+/-- on each side of the switch `w = EPS` (both points on the power/log formula of the same side); `scale ≥ 0` is the
+declared bound `scale ≥ 1e-5` -/
+theorem YeoJohnson.fwdW_mono_fp (lam : Rd M) {w1 w2 : Rd M} (h : w1 ≤ w2) (side : eps ≤ w1 ∨ ¬ eps ≤ w2) :
+    YeoJohnson.fwdW lam w1 ≤ YeoJohnson.fwdW lam w2 := by
+  unfold YeoJohnson.fwdW
+  rcases side with hp | hn
+  · have hp2 : eps ≤ w2 := le_trans hp h
+    rw [if_pos hp, if_pos hp2]
+    have hpos := Rd.add_one_pos hp
+    have hs : w1 + 1 ≤ w2 + 1 := Rd.add_le_add' h le_rfl
+    split_ifs
+    · exact Rd.log_le_log' hpos hs
+    · rcases le_total (0 : ℝ) lam.val with hk | hk
+      · have hk' : (0 : Rd M) ≤ lam := by rw [Rd.le_def, Rd.zero_val]; exact hk
+        exact Rd.div_le_div_right' (Rd.sub_le_sub' (Rd.pow_le_pow_base hk' hpos hs) le_rfl) hk'
+      · have hk' : lam ≤ (0 : Rd M) := by rw [Rd.le_def, Rd.zero_val]; exact hk
+        exact Rd.div_le_div_right_of_nonpos (Rd.sub_le_sub' (Rd.pow_le_pow_base_of_nonpos hk' hpos hs) le_rfl) hk'
+  · have hn1 : ¬ eps ≤ w1 := fun hc => hn (le_trans hc h)
+    rw [if_neg hn1, if_neg hn]
+    have hpos := Rd.neg_add_one_pos hn
+    have hs : -w2 + 1 ≤ -w1 + 1 := Rd.add_le_add' (Rd.neg_le_neg' h) le_rfl
+    split_ifs
+    · exact Rd.neg_le_neg' (Rd.log_le_log' hpos hs)
+    · rcases le_total (0 : ℝ) (2 - lam).val with hk | hk
+      · have hk' : (0 : Rd M) ≤ 2 - lam := by rw [Rd.le_def, Rd.zero_val]; exact hk
+        exact Rd.div_le_div_right' (Rd.neg_le_neg' (Rd.sub_le_sub' (Rd.pow_le_pow_base hk' hpos hs) le_rfl)) hk'
+      · have hk' : 2 - lam ≤ (0 : Rd M) := by rw [Rd.le_def, Rd.zero_val]; exact hk
+        exact Rd.div_le_div_right_of_nonpos
+          (Rd.neg_le_neg' (Rd.sub_le_sub' (Rd.pow_le_pow_base_of_nonpos hk' hpos hs) le_rfl)) hk'
+
+theorem YeoJohnson.fwd_mono_fp (p : YeoJohnson.Params (Rd M)) (hs : 0 ≤ p.scale) {x1 x2 : Rd M} (h : x1 ≤ x2)
+    (side : eps ≤ p.nu + x1 * p.scale ∨ ¬ eps ≤ p.nu + x2 * p.scale) :
+    YeoJohnson.fwd p x1 ≤ YeoJohnson.fwd p x2 :=
+  YeoJohnson.fwdW_mono_fp p.lam (Rd.add_le_add' le_rfl (Rd.mul_le_mul_right' h hs)) side
+
+theorem LogSinh.fwd_mono_fp (p : LogSinh.Params (Rd M)) (hx : 0 ≤ p.xmax) {x1 x2 : Rd M} (h : x1 ≤ x2)
+    (hd : 0 < (1 - Transc.exp (-2 * (LogSinh.a p + LogSinh.b p * (x1 / p.xmax)))) / 2) :
+    LogSinh.fwd p x1 ≤ LogSinh.fwd p x2 := by
+  unfold LogSinh.fwd
+  have hb : (0 : Rd M) ≤ LogSinh.b p := Rd.exp_nonneg' _
+  have hw : LogSinh.a p + LogSinh.b p * (x1 / p.xmax) ≤ LogSinh.a p + LogSinh.b p * (x2 / p.xmax) :=
+    Rd.add_le_add' le_rfl (Rd.mul_le_mul_left' (Rd.div_le_div_right' h hx) hb)
+  have he := Rd.exp_le_exp' (Rd.mul_le_mul_left_of_nonpos hw Rd.neg_two_nonpos)
+  have hq := Rd.div_le_div_right' (Rd.sub_le_sub' (le_refl (1 : Rd M)) he) (Rd.two_pos (M := M)).le
+  exact Rd.div_le_div_right' (Rd.add_le_add' hw (Rd.log_le_log' hd hq)) hb
+
+theorem Reciprocal.fwd_mono_fp (p : Reciprocal.Params (Rd M)) {x1 x2 : Rd M} (h : x1 ≤ x2) (hd : 0 < p.nu + x1) :
+    Reciprocal.fwd p x1 ≤ Reciprocal.fwd p x2 :=
+  Rd.div_le_div_left_nonpos Rd.neg_one_nonpos hd (Rd.add_le_add' le_rfl h)
+
+theorem Sinh.fwd_mono_fp (p : Sinh.Params (Rd M)) (hs : 0 ≤ p.scale) {x1 x2 : Rd M} (h : x1 ≤ x2) :
+    Sinh.fwd p x1 ≤ Sinh.fwd p x2 :=
+  Rd.asinh_le_asinh' (Rd.mul_le_mul_right' (Rd.sub_le_sub' h le_rfl) hs)
+
+theorem Manly.fwd_mono_fp (p : Manly.Params (Rd M)) (hx : 0 ≤ p.xmax) {x1 x2 : Rd M} (h : x1 ≤ x2) :
+    Manly.fwd p x1 ≤ Manly.fwd p x2 := by
+  have hu : x1 / p.xmax ≤ x2 / p.xmax := Rd.div_le_div_right' h hx
+  unfold Manly.fwd
+  split_ifs with hl
+  · rcases Rd.lamBig_ne hl with hneg | hpos
+    · have hk : p.lam ≤ 0 := by rw [Rd.le_def, Rd.zero_val]; exact hneg.le
+      exact Rd.div_le_div_right_of_nonpos
+        (Rd.sub_le_sub' (Rd.exp_le_exp' (Rd.mul_le_mul_left_of_nonpos hu hk)) le_rfl) hk
+    · have hk : 0 ≤ p.lam := by rw [Rd.le_def, Rd.zero_val]; exact hpos.le
+      exact Rd.div_le_div_right' (Rd.sub_le_sub' (Rd.exp_le_exp' (Rd.mul_le_mul_left' hu hk)) le_rfl) hk
+  · exact hu
+
+/-! ### … and the number `jacobian` returns is never negative (the sign survives every rounding) -/
+
+theorem Identity.jac_nonneg_fp (p : Identity.Params (Rd M)) (x : Rd M) : 0 ≤ Identity.jac p x := Rd.one_pos'.le
+
+/-- from the `np.where` guard alone (`lower` a floating-point number) -/
+theorem Logit.jacobian_nonneg_fp (p : Logit.Params (Rd M)) (hl : Rd.Repr p.lower) (x j : Rd M)
+    (hj : Logit.jacobian p x = some j) : 0 ≤ j := by
+  unfold Logit.jacobian C01.guard at hj
+  split_ifs at hj with hg
+  simp only [Bool.and_eq_true, decide_eq_true_eq] at hg
+  obtain ⟨g1, g2⟩ := hg
+  cases hj
+  -- x - lower ≥ 0
+  have he := Rd.eps_nonneg (M := M)
+  rw [Rd.le_def, Rd.zero_val] at he
+  have hlo : p.lower.val ≤ x.val := by
+    rw [Rd.lt_def, Rd.add_val] at g1
+    have : p.lower.val ≤ M.rnd (p.lower.val + (eps : Rd M).val) := by
+      have := M.rnd_mono (show p.lower.val ≤ p.lower.val + (eps : Rd M).val by linarith)
+      rwa [hl] at this
+    linarith
+  have hup : x.val ≤ (Logit.upper p).val := by
+    rw [Rd.lt_def, Rd.sub_val] at g2
+    have : M.rnd ((Logit.upper p).val - (eps : Rd M).val) ≤ (Logit.upper p).val := by
+      have := M.rnd_mono (show (Logit.upper p).val - (eps : Rd M).val ≤ (Logit.upper p).val by linarith)
+      rwa [show M.rnd (Logit.upper p).val = (Logit.upper p).val from Rd.repr_add _ _] at this
+    linarith
+  have hnum : (0 : Rd M) ≤ x - p.lower := Rd.sub_nonneg' hlo
+  have hle : x - p.lower ≤ Logit.upper p - p.lower := Rd.sub_le_sub' hup le_rfl
+  have hW : (0 : Rd M) ≤ Logit.upper p - p.lower := le_trans hnum hle
+  have hv0 : (0 : Rd M) ≤ (x - p.lower) / (Logit.upper p - p.lower) := Rd.div_nonneg' hnum hW
+  have hv1 : (x - p.lower) / (Logit.upper p - p.lower) ≤ 1 := by
+    rw [Rd.le_def, Rd.div_val, Rd.one_val]
+    refine Rd.rnd_le_one ?_
+    rw [Rd.le_def, Rd.zero_val] at hW hnum
+    rw [Rd.le_def] at hle
+    exact div_le_one_of_le₀ hle hW
+  unfold Logit.jac
+  exact Rd.div_nonneg' (Rd.div_nonneg' (Rd.div_nonneg' Rd.one_pos'.le hW) hv0) (Rd.sub_nonneg' hv1)
+
+theorem Log.jacobian_nonneg_fp (p : Log.Params (Rd M)) (hm : 0 ≤ p.mininu) (hb : 0 ≤ Log.bf p) (x j : Rd M)
+    (hj : Log.jacobian p x = some j) : 0 ≤ j := by
+  unfold Log.jacobian C01.guard at hj
+  split_ifs at hj with hg
+  simp only [decide_eq_true_eq] at hg
+  cases hj
+  unfold Log.jac
+  exact Rd.div_nonneg' (Rd.div_nonneg' Rd.one_pos'.le (le_trans hm hg.le)) hb
+
+theorem BoxCox2.jacobian_nonneg_fp (p : BoxCox2.Params (Rd M)) (hm : 0 ≤ p.mininu) (x j : Rd M)
+    (hj : BoxCox2.jacobian p x = some j) : 0 ≤ j := by
+  unfold BoxCox2.jacobian C01.guard at hj
+  split_ifs at hj with hg
+  simp only [decide_eq_true_eq] at hg
+  cases hj
+  have hpos : (0 : Rd M) < x + p.nu := lt_of_le_of_lt hm hg
+  unfold BoxCox2.jac
+  split_ifs
+  · exact Rd.pow_nonneg' _ hpos
+  · exact Rd.div_nonneg' Rd.one_pos'.le hpos.le
+
+theorem BoxCox2sym.jacobian_nonneg_fp (p : BoxCox2sym.Params (Rd M)) (hm : 0 ≤ p.mininu) (x j : Rd M)
+    (hj : BoxCox2sym.jacobian p x = some j) : 0 ≤ j :=
+  BoxCox2.jacobian_nonneg_fp (BoxCox2sym.toBC p) hm (absv x) j hj
+
+theorem YeoJohnson.jac_nonneg_fp (p : YeoJohnson.Params (Rd M)) (hs : 0 ≤ p.scale) (x : Rd M) :
+    0 ≤ YeoJohnson.jac p x := by
+  unfold YeoJohnson.jac
+  refine Rd.mul_nonneg' ?_ hs
+  unfold YeoJohnson.jacW
+  split_ifs with hw h0 h2
+  · exact Rd.div_nonneg' Rd.one_pos'.le (Rd.add_one_pos hw).le
+  · exact Rd.pow_nonneg' _ (Rd.add_one_pos hw)
+  · exact Rd.div_nonneg' Rd.one_pos'.le (Rd.neg_add_one_pos hw).le
+  · exact Rd.pow_nonneg' _ (Rd.neg_add_one_pos hw)
+
+theorem LogSinh.jac_nonneg_fp (p : LogSinh.Params (Rd M)) (hx : 0 ≤ p.xmax) (x : Rd M)
+    (hw : 0 ≤ LogSinh.a p + LogSinh.b p * (x / p.xmax)) : 0 ≤ LogSinh.jac p x := by
+  unfold LogSinh.jac
+  exact Rd.mul_nonneg' (Rd.div_nonneg' Rd.one_pos'.le hx) (Rd.div_nonneg' Rd.one_pos'.le (Rd.tanh_nonneg' hw))
+
+/-- unconditional: a reciprocal of a square -/
+theorem Reciprocal.jac_nonneg_fp (p : Reciprocal.Params (Rd M)) (x : Rd M) : 0 ≤ Reciprocal.jac p x := by
+  unfold Reciprocal.jac
+  exact Rd.div_nonneg' Rd.one_pos'.le (Rd.mul_self_nonneg' _)
+
+theorem Sinh.jacH_nonneg_fp (p : Sinh.Params (Rd M)) (hs : 0 ≤ p.scale) (x : Rd M) : 0 ≤ C02.Sinh.jacH p x := by
+  unfold C02.Sinh.jacH C02.Sinh.hypot1
+  refine Rd.div_nonneg' hs ?_
+  simp only
+  split_ifs
+  · exact Rd.mul_nonneg' (Rd.absv_nonneg _) (Rd.sqrt_nonneg' _)
+  · exact Rd.sqrt_nonneg' _
+
+theorem Manly.jac_nonneg_fp (p : Manly.Params (Rd M)) (hx : 0 ≤ p.xmax) (x : Rd M) : 0 ≤ Manly.jac p x := by
+  unfold Manly.jac
+  split_ifs
+  · exact Rd.div_nonneg' (Rd.exp_nonneg' _) hx
+  · exact Rd.div_nonneg' Rd.one_pos'.le hx
+
+theorem Softmax.sumFrom_nonneg_fp (xs : List (Rd M)) (acc : Rd M) (ha : 0 ≤ acc) (h : ∀ x ∈ xs, (0 : Rd M) ≤ x) :
+    0 ≤ Softmax.sumFrom acc xs := by
+  induction xs generalizing acc with
+  | nil => exact ha
+  | cons x t ih =>
+    unfold Softmax.sumFrom
+    exact ih _ (Rd.add_nonneg' ha (h x (by simp))) (fun y hy => h y (by simp [hy]))
+
+theorem Softmax.prodFrom_nonneg_fp (xs : List (Rd M)) (acc : Rd M) (ha : 0 ≤ acc) (h : ∀ x ∈ xs, (0 : Rd M) ≤ x) :
+    0 ≤ Softmax.prodFrom acc xs := by
+  induction xs generalizing acc with
+  | nil => exact ha
+  | cons x t ih =>
+    unfold Softmax.prodFrom
+    exact ih _ (Rd.mul_nonneg' ha (h x (by simp))) (fun y hy => h y (by simp [hy]))
+
+/-- every accepted row, of any length -/
+theorem Softmax.jacobian_nonneg_fp (xs : List (Rd M)) (j : Rd M) (hj : Softmax.jacobian xs = .ok j) : 0 ≤ j := by
+  unfold Softmax.jacobian at hj
+  split_ifs at hj with hneg hbig
+  cases hj
+  have hall : ∀ x ∈ xs, (0 : Rd M) ≤ x := by
+    intro x hx
+    by_contra hc
+    apply hneg
+    unfold Softmax.anyNeg
+    rw [List.any_eq_true]
+    exact ⟨x, hx, by simpa using lt_of_not_ge hc⟩
+  have hs0 : (0 : Rd M) ≤ Softmax.sumL xs := Softmax.sumFrom_nonneg_fp xs 0 le_rfl hall
+  have hp0 : (0 : Rd M) ≤ Softmax.prodL xs := Softmax.prodFrom_nonneg_fp xs 1 Rd.one_pos'.le hall
+  have hs1 : Softmax.sumL xs ≤ 1 := by
+    unfold Softmax.sumTooBig at hbig
+    simp only [decide_eq_true_eq, not_lt] at hbig
+    refine le_trans hbig ?_
+    have he := Rd.eps_nonneg (M := M)
+    rw [Rd.le_def, Rd.zero_val] at he
+    rw [Rd.le_def, Rd.sub_val, Rd.one_val]
+    exact Rd.rnd_le_one (by linarith)
+  unfold Softmax.jacRow
+  exact Rd.div_nonneg' (Rd.add_nonneg' Rd.one_pos'.le (Rd.div_nonneg' hs0 (Rd.sub_nonneg' hs1))) hp0
+
+end Rounded
+
+/-! ### hypotheses that cannot be dropped (each excluded point is probed on the real code by the harness) -/
+
+/-- the guard of `Log._jacobian` is wider than the domain when `mininu < 0` (a constructor option the code accepts):
+`0 ≤ mininu` in `Log.dom_of_jdom` cannot be dropped -/
+theorem Log.guard_wider_than_domain :
+    ∃ (p : Log.Params ℝ) (x : ℝ), Log.admissible p ∧ Log.jdom p x ∧ ¬ Log.dom p x :=
+  ⟨⟨-5, none, -10⟩, 0, by simp only [Log.admissible]; norm_num, by simp only [Log.jdom]; norm_num,
+    by simp only [Log.dom]; norm_num⟩
+
+/-- `base = 1` is accepted by the constructor (`math.log(1) = 0`): the formula divides by zero (`inf` in doubles; `0` in
+the real-number reading of `/`): no positive Jacobian there, `0 < Log.bf p` cannot be dropped -/
+theorem Log.base_one_not_pos (nu mininu x : ℝ) : Log.bf (⟨nu, some 1, mininu⟩ : Log.Params ℝ) = 0 ∧
+    ¬ 0 < Log.jac (⟨nu, some 1, mininu⟩ : Log.Params ℝ) x := by
+  have h : Log.bf (⟨nu, some 1, mininu⟩ : Log.Params ℝ) = 0 := by simp [Log.bf]
+  exact ⟨h, by simp [Log.jac, h]⟩
+
 /-! ### non-vacuity: every hypothesis above is met by concrete, non-trivial inputs -/
 
 example : Logit.jdom (⟨0, 0⟩ : Logit.Params ℝ) (1 / 2) := by
@@ -1002,5 +1577,53 @@ example : ¬ LogSinh.dom (⟨0, 0, 1⟩ : LogSinh.Params ℝ) (-1) := by
   simp only [LogSinh.dom, LogSinh.inDom, LogSinh.a, LogSinh.b, transc_exp, Real.exp_zero, eps, decide_eq_true_iff]
   norm_num
 example : (∃ x ∈ ([0.2, -0.1] : List ℝ), x < 0) := ⟨-0.1, by simp, by norm_num⟩
+
+
+/-! ### non-vacuity of the object-history and rounded-arithmetic theorems -/
+example : ∃ o, mk .Sinh (Ctor.default : Ctor ℝ) = .ok o := ⟨_, rfl⟩
+example : ∃ o, mk .YeoJohnson (Ctor.default : Ctor ℝ) = .ok o := ⟨_, rfl⟩
+example : ∃ o, mk .Manly (Ctor.default : Ctor ℝ) = .ok o := ⟨_, rfl⟩
+example : ∃ o, mk .LogSinh (Ctor.default : Ctor ℝ) = .ok o := ⟨_, rfl⟩
+example : ∃ o, mk .BoxCox2sym (⟨1e-10, 0, none⟩ : Ctor ℝ) = .ok o ∧ (0 : ℝ) < 1e-10 := by
+  refine ⟨build .BoxCox2sym ⟨1e-10, 0, none⟩, ?_, by norm_num⟩
+  have : bcGuard (⟨1e-10, 0, none⟩ : Ctor ℝ) = .ok () := by
+    unfold bcGuard eps
+    norm_num
+  simp [mk, ctorGuard, this]
+example : ∃ o, mk .BoxCox1lam (⟨1e-10, -3, none⟩ : Ctor ℝ) = .ok o := by
+  refine ⟨build .BoxCox1lam ⟨1e-10, -3, none⟩, ?_⟩
+  have : bcGuard (⟨1e-10, -3, none⟩ : Ctor ℝ) = .ok () := by
+    unfold bcGuard eps
+    norm_num
+  simp [mk, ctorGuard, this]
+/-- a clipped assignment: `scale = -5` is stored as 1e-10 -/
+example : (step (build .Sinh (Ctor.default : Ctor ℝ)) (.setAttr "scale" (some (-5)))).1.params.vals
+    = [some 0, some 1e-10] := by
+  simp [step, setAttr, build, Vec.ofSlots, paramSlots, Vec.names, Vec.setName, Vec.setIdx, Vec.clipAll,
+    clipO, clip, Except.map]
+  norm_num
+example : (step (build .Sinh (Ctor.default : Ctor ℝ)) (.setAttr "nu" none)).2 = .rejected .nanValue := by
+  simp [step, setAttr, build, Vec.ofSlots, paramSlots, Vec.names, Vec.setName, Except.map]
+example : mk .BoxCox2 (⟨1e-10, -4, none⟩ : Ctor ℝ) = .error .minilamBelowM3 :=
+  (mk_rejects .BoxCox2 _ (Or.inl rfl)).1 (by norm_num)
+
+/-- the rounded statements are not vacuous: the exact arithmetic is a model, and the hypotheses hold at ordinary points -/
+example : (0 : Rd FP.exact) < (⟨1⟩ : Rd FP.exact) + (⟨0.1⟩ : Rd FP.exact) ∧
+    (0 : Rd FP.exact) < Log.bf (⟨⟨0.1⟩, none, ⟨1e-10⟩⟩ : Log.Params (Rd FP.exact)) := by
+  constructor
+  · rw [Rd.lt_def, Rd.zero_val, Rd.add_val]; show (0 : ℝ) < id (1 + 0.1); norm_num
+  · exact Rd.one_pos'
+example : Rd.Repr (⟨3⟩ : Rd FP.exact) := rfl
+example : (0 : Rd FP.exact) ≤ (⟨1e-5⟩ : Rd FP.exact) := by rw [Rd.le_def, Rd.zero_val]; norm_num
+example : Softmax.jacobian ([⟨0.25⟩, ⟨0.5⟩] : List (Rd FP.exact)) = .ok (Softmax.jacRow [⟨0.25⟩, ⟨0.5⟩]) := by
+  have h1 : Softmax.anyNeg ([⟨0.25⟩, ⟨0.5⟩] : List (Rd FP.exact)) = false := by
+    simp [Softmax.anyNeg, Rd.lt_def]
+    norm_num
+  have h2 : Softmax.sumTooBig ([⟨0.25⟩, ⟨0.5⟩] : List (Rd FP.exact)) = false := by
+    simp [Softmax.sumTooBig, Softmax.sumL, Softmax.sumFrom, Rd.lt_def, Rd.eps_val]
+    show id (id (0.25 : ℝ) + 0.5) ≤ id ((1 : ℝ) - id 1e-10)
+    simp only [id]
+    norm_num
+  simp [Softmax.jacobian, h1, h2]
 
 end HydroVerif.C02
